@@ -3256,6 +3256,8 @@ class __implementations__:
     @implements(numpy.absolute)
     def abs(arg: IntoArray) -> Array:
         arg = Array.cast(arg)
+        if arg.dtype == bool:
+            return arg
         return _Wrapper(evaluable.abs, arg, shape=arg.shape, dtype=float if arg.dtype == complex else arg.dtype)
 
     @implements(numpy.sign)
